@@ -166,7 +166,6 @@ def check_call(c, fn, args, kwargs=None):
         if exact and when is not None and w:
             raise Violation('raises.' + exc, 'returned normally although `%s` held' % when)
     env2 = dict(env)
-    env2.update(pre_args)
     env2['result'] = result
     for name, text, code, oldvals in ens:
         e3 = dict(env2)
